@@ -225,7 +225,11 @@ def enum_classes() -> dict:
     class Tup(enum.Enum):
         P = (1, 2)
         Q = (1, 3)
-    return {c.__name__: c for c in (Plain, LookAlike, Aliased, StrMix, IntMix, Tup)}
+    class Unhashable(enum.Enum):           # member values that CPython keeps out of _value2member_map_
+        TRI = [3, "sides"]
+        BOX = {"n": 4}
+        ONE = 1
+    return {c.__name__: c for c in (Plain, LookAlike, Aliased, StrMix, IntMix, Tup, Unhashable)}
 
 
 def run_enums(ctx: Ctx) -> None:
